@@ -434,12 +434,113 @@ def check_portal(eng, run):
     run.ob("C18.portal", f"{rs.short}:checked-under-lock-and-refused", ok and refuses)
 
 
+def check_snapshot(eng, run):
+    """server_close() stops an activation in one of two ways: it clears the factory (seen by a later read) or cancels the factory
+    scope (seen by an activation that already registered its scope).  An activation that has read the factory but not yet
+    registered its scope is invisible to it - so no suspension point may lie between that read and the scope registration."""
+    aa = eng.db.cls(f"{BASE}.BaseAsyncNetworkServerImpl")
+    act = _meth(aa, "server_activate")
+    me = act.self_name
+    # the closed marker: the self attribute whose None-ness makes server_activate raise ServerClosedError
+    cleared = set()
+    for n in own_nodes(act.node):
+        if isinstance(n, ast.If) and any(isinstance(r, ast.Raise) and "ServerClosedError" in ast.unparse(r) for r in n.body):
+            for x in ast.walk(n.test):
+                if isinstance(x, ast.Attribute) and dotted(x.value) == me:
+                    cleared.add(dotted(x))
+                if isinstance(x, ast.Name):
+                    from sa.analyses.buffers import through_local
+                    v = through_local(act, x)
+                    if isinstance(v, ast.Attribute) and dotted(v.value) == me:
+                        cleared.add(dotted(v))
+    # the scope server_close() cancels: the self attribute bound by a `with ... as self.<attr>` in server_activate
+    cancelled = {dotted(it.optional_vars) for w in own_nodes(act.node) if isinstance(w, (ast.With, ast.AsyncWith)) for it in w.items
+                 if isinstance(it.optional_vars, ast.Attribute) and dotted(it.optional_vars.value) == me}
+    cleared -= cancelled
+    if not cleared or not cancelled:
+        raise AnalysisError("anchor vanished: server_activate() tests the closed marker and registers a cancel scope")
+
+    def reads_marker(n):
+        if isinstance(n, (ast.NamedExpr, ast.Assign, ast.AnnAssign)) and getattr(n, "value", None) is not None:
+            return dotted(n.value) in cleared
+        return False
+
+    def registers_scope(n):
+        if isinstance(n, WithEnter):
+            return dotted(n.item.optional_vars) in cancelled if n.item.optional_vars is not None else False
+        if isinstance(n, ast.Assign):
+            return any(dotted(t) in cancelled for t in n.targets) and not (isinstance(n.value, ast.Constant) and n.value.value is None)
+        return False
+
+    an = AtomicSection(eng, reads_marker, registers_scope)
+    Interp(an, act).run()
+    if not an.starts or not an.ends:
+        raise AnalysisError("anchor vanished: server_activate() reads the factory then registers its cancel scope")
+    ok = all(st == "armed" for _, st in an.ends)
+    if not ok:
+        br = an.breaks[0] if an.breaks else None
+        run.finding("C18.refuse", act, _stmt_at(act, br.lineno) if br is not None and hasattr(br, "lineno") else act.node,
+                    f"a suspension point lies between reading {sorted(cleared)} and registering {sorted(cancelled)}: a server_close() running in that window neither clears what was read "
+                    "nor finds a scope to cancel, so a closed server binds new listeners and serves")
+    run.ob("C18.refuse", f"{act.short}:closed-check-and-scope-registration-atomic", ok, starts=len(an.starts), ends=len(an.ends))
+
+
+class MustSet(RuleAnalysis):
+    """fact: 'unset' | 'set' - has `<attr>.set()` run?"""
+    tokens = ("Exception", "BaseException")
+
+    def __init__(self, engine, attr):
+        super().__init__(engine)
+        self.attr = attr
+        self.sets = 0
+
+    def initial(self, fn):
+        return ["unset"]
+
+    def may_raise(self, node, fact):
+        return list(self.tokens) if isinstance(node, ast.Call) and not (isinstance(node.func, ast.Attribute) and node.func.attr == "set") else []
+
+    def transfer(self, node, fact):
+        if isinstance(node, ast.Call) and isinstance(node.func, ast.Attribute) and node.func.attr == "set" and dotted(node.func.value) == self.attr:
+            self.sets += 1
+            return ["set"]
+        return [fact]
+
+
+def check_thread_up(eng, run):
+    """NetworkServerThread.start() blocks on the is-up event: run() must set it on *every* exit of serve_forever() - also the normal
+    return of a server that was shut down (or closed) before it ever came up - or start() never returns."""
+    ci = eng.db.module("servers.threads_helper").classes.get("NetworkServerThread")
+    if ci is None:
+        raise AnalysisError("anchor vanished: NetworkServerThread")
+    start, runm = _meth(ci, "start"), _meth(ci, "run")
+    waited = {dotted(c.func.value) for c in own_nodes(start.node) if isinstance(c, ast.Call) and isinstance(c.func, ast.Attribute) and c.func.attr == "wait"}
+    waited = {w for w in waited if w and w.startswith(start.self_name + ".")}
+    if len(waited) != 1:
+        raise AnalysisError("anchor vanished: the event NetworkServerThread.start() waits on")
+    attr = next(iter(waited)).replace(start.self_name + ".", runm.self_name + ".", 1)
+    an = MustSet(eng, attr)
+    out = Interp(an, runm).run()
+    bad = [("return", tr) for f, tr in out.ret.items() if f == "unset"] + [(f"raise[{t}]", tr) for t, m in out.exc.items() for f, tr in m.items() if f == "unset"]
+    for label, tr in bad[:1]:
+        run.finding("C18.wait", runm, _stmt_at(runm, tr[-1]) if tr else runm.node, f"run() can leave ({label}) without setting `{attr}`: start() waits on it without a timeout and deadlocks "
+                    "when serve_forever() ends before the server was up (shutdown / close during start-up)", tr)
+    run.ob("C18.wait", f"{runm.short}:is-up-event-set-on-every-exit", not bad and an.sets > 0, set_sites=an.sets)
+    # and serve_forever receives that very event
+    passes = any(isinstance(c, ast.Call) and any(dotted(k.value) == attr for k in c.keywords) for c in own_nodes(runm.node))
+    if not passes:
+        run.finding("C18.wait", runm, runm.node, f"serve_forever() is no longer given `{attr}`: start() returns before (or never when) the server is up")
+    run.ob("C18.wait", f"{runm.short}:event-handed-to-serve_forever", passes)
+
+
 def run(eng, run):
     run.not_decided += NOT_DECIDED
     check_order(eng, run)
     check_wait(eng, run)
+    check_thread_up(eng, run)
     check_refuse(eng, run)
     check_latch(eng, run)
+    check_snapshot(eng, run)
     check_tear(eng, run)
     check_portal(eng, run)
 
@@ -495,4 +596,34 @@ BENIGN = [
             why="`with a, b:` rewritten as nested withs"),
     Variant("async-shutdown-rename", _AA + ".shutdown", lambda fn: insert_before(fn, stmt_has("await self.__is_shutdown.wait()"), "event = self.__is_shutdown"), why="unrelated local"),
     Variant("standalone-rename-portal-local", _SA + ".shutdown", lambda fn: rename_local(fn, "elapsed", "timer"), why="local renamed"),
+]
+
+
+_ACT = _AA + ".server_activate"
+_THR = "servers.threads_helper:NetworkServerThread.run"
+
+
+def _closed_check_before_lock(fn):
+    w = next(n for n in ast.walk(fn) if isinstance(n, ast.AsyncWith))
+    chk = next(s for s in w.body if isinstance(s, ast.If) and "servers_factory" in ast.unparse(s.test))
+    w.body.remove(chk)
+    fn.body.insert(fn.body.index(w), chk)
+
+
+def _event_only_on_error(fn):
+    t = next(n for n in ast.walk(fn) if isinstance(n, ast.Try))
+    h = ast.ExceptHandler(type=ast.Name(id="BaseException", ctx=ast.Load()), name=None, body=t.finalbody + [ast.Raise(exc=None, cause=None)])
+    t.handlers, t.finalbody = [h], []
+
+
+MUTANTS += [
+    Variant("closed-check-before-activation-lock", _ACT, _closed_check_before_lock, "C18.refuse",
+            why="an activation queued on the lock uses a factory read before server_close() ran: a closed server serves (seed C18-4)"),
+    Variant("is-up-event-set-only-on-error", _THR, _event_only_on_error, "C18.wait",
+            why="shutdown during start-up: serve_forever() returns normally, start() deadlocks (seed C18-6)"),
+]
+BENIGN += [
+    Variant("is-up-event-set-in-both-arms", _THR,
+            lambda fn: setattr(fn, "body", fn.body[:-1] + ast.parse("try:\n    self.__server.serve_forever(is_up_event=self.__is_up_event)\nexcept BaseException:\n    self.__is_up_event.set()\n    raise\nelse:\n    self.__is_up_event.set()").body),
+            why="event set explicitly on both the error and the normal exit"),
 ]
